@@ -285,6 +285,69 @@ def listener_facts(repo):
     return out
 
 
+def listener_write_facts(repo):
+    """writes that shipped listeners / output code make THROUGH objects they receive from the solver (parameters of their methods,
+    and attributes in which they store such parameters), plus module-level mutable state anywhere in iOpt/"""
+    files = ['iOpt/method/listener.py'] + sorted(os.path.relpath(f, repo) for f in glob.glob(os.path.join(repo, 'iOpt', 'output_system', '**', '*.py'), recursive=True))
+    received = ('searchData', 'solution', 'savedNewPoints', 'method', 'currSolution', 'solv', 'sol', 'point', 'bestTrialPoint', 'points', 'section',
+                'parameters', 'problem', 'task')
+    writes = []
+    for rel in files:
+        tree = parse(repo, rel)
+        for cls in [n for n in ast.walk(tree) if isinstance(n, ast.ClassDef)]:
+            for fn in [n for n in cls.body if isinstance(n, ast.FunctionDef)]:
+                params = {a.arg for a in fn.args.args[1:]}
+                # attributes of self that alias a received object: self.x = <param>
+                for n in ast.walk(fn):
+                    tgts = n.targets if isinstance(n, ast.Assign) else ([n.target] if isinstance(n, (ast.AugAssign, ast.AnnAssign)) else [])
+                    for t in tgts:
+                        for e in (t.elts if isinstance(t, ast.Tuple) else [t]):
+                            base = e
+                            path = []
+                            while isinstance(base, (ast.Attribute, ast.Subscript)):
+                                path.append(base)
+                                base = base.value
+                            if not isinstance(base, ast.Name) or not path:
+                                continue
+                            root = base.id
+                            first = path[-1]
+                            if root in params:
+                                writes.append('%s:%s.%s: %s' % (rel, cls.name, fn.name, ast.unparse(e)))
+                            elif root == 'self' and isinstance(first, ast.Attribute) and len(path) >= 2 and first.attr in received:
+                                writes.append('%s:%s.%s: %s' % (rel, cls.name, fn.name, ast.unparse(e)))
+                    if isinstance(n, ast.Call) and isinstance(n.func, ast.Attribute) and n.func.attr in (
+                            'append', 'extend', 'insert', 'pop', 'remove', 'clear', 'sort', 'reverse', 'fill', 'SetZ', 'SetIndex', 'SetLeft', 'SetRight',
+                            'InsertDataItem', 'ClearQueue', 'RefillQueue', 'GetDataItemWithMaxGlobalR'):
+                        base = n.func.value
+                        while isinstance(base, (ast.Attribute, ast.Subscript)):
+                            nxt = base.value
+                            if isinstance(nxt, ast.Name):
+                                break
+                            base = nxt
+                        root = base.value.id if isinstance(base, (ast.Attribute, ast.Subscript)) and isinstance(base.value, ast.Name) else (base.id if isinstance(base, ast.Name) else None)
+                        attr = base.attr if isinstance(base, ast.Attribute) else None
+                        if root in params or (root == 'self' and attr in received):
+                            writes.append('%s:%s.%s: %s' % (rel, cls.name, fn.name, ast.unparse(n)[:60]))
+    out = ['Definition listener_writes_through_received : list string := %s.' % clist(map(cstr, writes))]
+    # module-level mutable state and `global` statements in the library
+    mods = []
+    for f in sorted(glob.glob(os.path.join(repo, 'iOpt', '**', '*.py'), recursive=True)):
+        rel = os.path.relpath(f, repo)
+        if '/problems/' in rel and rel.endswith('_generation.py'):
+            continue   # coefficient tables: covered by the benchmark properties
+        tree = ast.parse(open(f).read())
+        for n in tree.body:
+            if isinstance(n, (ast.Assign, ast.AnnAssign)) and getattr(n, 'value', None) is not None and isinstance(n.value, MUTABLE):
+                if isinstance(n.value, ast.Call) and ast.unparse(n.value.func) in ('np.double', 'float', 'int', 'str', 'TypeVar'):
+                    continue
+                mods.append('%s: %s' % (rel, ast.unparse(n)[:50]))
+        for n in ast.walk(tree):
+            if isinstance(n, (ast.Global, ast.Nonlocal)):
+                mods.append('%s: %s' % (rel, ast.unparse(n)))
+    out.append('Definition module_level_mutables : list string := %s.' % clist(map(cstr, mods)))
+    return out
+
+
 def skeleton_facts(repo):
     """normalised statement skeletons of the driver methods the state-machine model mirrors"""
     out = []
@@ -343,7 +406,7 @@ def skeleton_facts(repo):
 def translate(repo):
     parts = ['(* GENERATED by tools/translate/facts_tr.py from the iOpt sources - do not edit *)',
              'From Coq Require Import String List Bool.', 'Import ListNotations.', 'Open Scope string_scope.', '']
-    for fn in (solver_facts, evolvent_copy_facts, refine_facts, mutable_default_facts, listener_facts, skeleton_facts):
+    for fn in (solver_facts, evolvent_copy_facts, refine_facts, mutable_default_facts, listener_facts, listener_write_facts, skeleton_facts):
         parts += fn(repo)
         parts.append('')
     return '\n'.join(parts)
